@@ -1037,6 +1037,39 @@ func (env *Env) evalCall(e *Expr) CV {
 			}
 		}
 		panic(cerr("loopdec(%d): loop has no measure recorded yet", n))
+	case "locked", "rlocked", "lockframe", "rlockframe":
+		// lock ownership of the executing goroutine (ghost): locked(m) = m is write-locked by us, rlocked(m) = read-locked
+		key := "lock.held"
+		if name == "rlocked" || name == "rlockframe" {
+			key = "lock.rheld"
+		}
+		var addr *Term
+		if a0 := e.Args[0]; a0.Kind == "ident" {
+			if _, isVar := env.lookup(a0.Name); !isVar && env.r.names[a0.Name] == nil && env.pkg != nil {
+				if sp := r.e.ssaPkgs[env.pkg.Path()]; sp != nil {
+					if g, ok := sp.Members[a0.Name].(*ssa.Global); ok {
+						addr = r.e.gaddr(g)
+					}
+				}
+			}
+		}
+		if addr == nil {
+			switch v := arg(0).V.(type) {
+			case Scalar:
+				addr = v.T
+			case PtrV:
+				addr = r.e.ptrNum(v)
+			default:
+				panic(cerr("%s: argument must be a mutex variable or pointer", name))
+			}
+		}
+		cur := r.e.ghost(env.cur, key, BoolAr)
+		if name == "locked" || name == "rlocked" {
+			return CV{V: Scalar{tb.Select(cur, addr)}, T: boolT}
+		}
+		old := r.e.ghost(env.old, key, BoolAr)
+		x := tb.BoundVar("x", BV64)
+		return CV{V: Scalar{tb.Forall([]*Term{x}, tb.Implies(tb.Ne(x, addr), tb.Eq(tb.Select(cur, x), tb.Select(old, x))), []*Term{tb.Select(cur, x)})}, T: boolT}
 	case "cowned":
 		switch v := arg(0).V.(type) {
 		case SliceV:
